@@ -12,6 +12,12 @@ import (
 // backend that handles the kind at all (mentions the type) but never reads one
 // of its fields cannot reflect that field in its output.
 func (c *Ctx) runIRFieldRead(r *Report, rule string, backend string, exceptions map[string]string) {
+	c.runIRFieldReadSel(r, rule, backend, exceptions, func(n string) bool {
+		return strings.HasPrefix(n, "Expr") || strings.HasPrefix(n, "Stmt")
+	})
+}
+
+func (c *Ctx) runIRFieldReadSel(r *Report, rule string, backend string, exceptions map[string]string, sel func(string) bool) {
 	irPkg := c.ByPath[modPath+"/ir"]
 	if irPkg == nil {
 		r.undecided(rule, "ir:kinds", "", "package ir not loaded")
@@ -27,7 +33,7 @@ func (c *Ctx) runIRFieldRead(r *Report, rule string, backend string, exceptions 
 	names := scope.Names()
 	sort.Strings(names)
 	for _, n := range names {
-		if !(strings.HasPrefix(n, "Expr") || strings.HasPrefix(n, "Stmt")) {
+		if !sel(n) {
 			continue
 		}
 		tn, ok := scope.Lookup(n).(*types.TypeName)
@@ -84,6 +90,21 @@ func (c *Ctx) runIRFieldRead(r *Report, rule string, backend string, exceptions 
 }
 
 func init() {
+	dumpers["irfields2"] = func(c *Ctx, parts []string) {
+		r := newReport("dump")
+		for _, be := range []string{"spirv", "hlsl", "msl", "glsl"} {
+			c.runIRFieldReadSel(r, "irfield.decl", be, nil, irDeclStructs)
+		}
+		nOK := 0
+		for _, o := range r.Obs {
+			if o.Verdict == "ok" {
+				nOK++
+				continue
+			}
+			println(o.Verdict, o.Construct)
+		}
+		println("ok", nOK)
+	}
 	dumpers["irfields"] = func(c *Ctx, parts []string) {
 		r := newReport("dump")
 		for _, be := range []string{"spirv", "hlsl", "msl", "glsl", "dxil"} {
@@ -99,4 +120,16 @@ func init() {
 		}
 		println("ok", nOK)
 	}
+}
+
+// irDeclStructs selects the IR declaration structs whose fields all carry
+// program meaning a backend has to reflect (irfield.decl).
+func irDeclStructs(n string) bool {
+	switch n {
+	case "GlobalVariable", "LocalVariable", "FunctionArgument", "FunctionResult", "StructMember",
+		"ImageType", "SamplerType", "ArrayType", "MatrixType", "VectorType", "ScalarType", "AtomicType",
+		"SwitchCase", "Override":
+		return true
+	}
+	return false
 }
